@@ -657,12 +657,12 @@ def gen_project(rng, tier):
     fixtures = []
     for i in range(rng.choice([1, 2, 3])):
         fixtures.append({"name": "fx%d" % i, "scope": rng.choice(["session", "suite"]), "generator": rng.random() < 0.6,
-                         "form": rng.choice(["genfunc", "genfunc", "delegating"])})
+                         "form": rng.choice(["genfunc", "genfunc", "delegating"]), "via": rng.random() < 0.4})
     suites = []
     for s in range(nsuites):
         tests = []
         for k in range(rng.choice([2, 4, 7, 12])):
-            used = [f["name"] for f in fixtures if rng.random() < 0.7]
+            used = [("via_" + f["name"]) if (f.get("via") and rng.random() < 0.5) else f["name"] for f in fixtures if rng.random() < 0.7]
             tests.append({"name": "t%d_%d" % (s, k), "uses": used})
         suites.append({"name": "s%d" % s, "tests": tests})
     td_raise = {}
